@@ -494,5 +494,78 @@ def check(F, R):
     w_exact(F, R)
     p_ivl(F, R)
     t_boundsof(F, R)
+    t_ivl_sem(F, R)
     t_inverse(F, R)
     w_rules(F, R)
+
+
+# ---- T-IVL-SEM ------------------------------------------------------------------------------------------
+# BoundsAnalyzer::bounds_of (with Bounds::{abs, add, sub, scale, div_by, ...}) is evaluated from its typed HIR on expression
+# forms over variables with every class of interval (sign-known, sign-unknown, point, half-bounded, unbounded); the
+# interval it returns must be well formed (no NaN, lower <= upper) and must contain the value of the form at every
+# operand point of a rational grid inside the operand intervals (clipped to a finite window when an end is infinite).
+
+def t_ivl_sem(F, R):
+    import itertools as it
+    from fractions import Fraction as Fr
+    import c10
+    from interp import Interp, Var as V, Rope as Rp, ListV as LV, is_unknown
+    fn = "transformers::bounds::BoundsAnalyzer::bounds_of"
+    if not R.ob("T-IVL-SEM", "anchor", F.fn(fn) is not None, "packages/rooc/src/transformers/bounds.rs", "bounds_of found"):
+        return
+    R.fn(fn)
+    I = Interp(F, max_depth=200)
+    E = c10.EXP
+    INF = float("inf")
+
+    def analyzer(b):
+        return V("transformers::bounds::BoundsAnalyzer", fields={"variable_bounds": LV([(n, V(BOUNDS, fields={"lower": lo, "upper": hi})) for n, (lo, hi) in b.items()]), "tolerance": 1e-9, "reached_iteration_limit": False, "detected_infeasible": False})
+    var = lambda n: V(E + "::Variable", [Rp([n])])
+    num = lambda c: V(E + "::Number", [float(c)])
+    bop = lambda o, a, b: V(E + "::BinOp", [V("math::operators::BinOp::" + o), a, b])
+    neg = lambda a: V(E + "::UnOp", [V("math::operators::UnOp::Neg"), a])
+    ab = lambda a: V(E + "::Abs", [a])
+    mx = lambda *a: V(E + "::Max", [LV(list(a))])
+    mn = lambda *a: V(E + "::Min", [LV(list(a))])
+    x, y = var("x"), var("y")
+    forms = [("x", x, lambda a, b: a), ("-x", neg(x), lambda a, b: -a), ("abs(x)", ab(x), lambda a, b: abs(a)), ("x+y", bop("Add", x, y), lambda a, b: a + b), ("x-y", bop("Sub", x, y), lambda a, b: a - b),
+             ("2*x", bop("Mul", num(2), x), lambda a, b: 2 * a), ("x*-2", bop("Mul", x, num(-2)), lambda a, b: -2 * a), ("0*x", bop("Mul", num(0), x), lambda a, b: 0 * a), ("0.5*x", bop("Mul", num(0.5), x), lambda a, b: a / 2),
+             ("x/2", bop("Div", x, num(2)), lambda a, b: a / 2), ("x/-4", bop("Div", x, num(-4)), lambda a, b: a / -4), ("max(x,y)", mx(x, y), lambda a, b: max(a, b)), ("min(x,y)", mn(x, y), lambda a, b: min(a, b)),
+             ("max(x,y,1)", mx(x, y, num(1)), lambda a, b: max(a, b, 1)), ("abs(x-y)", ab(bop("Sub", x, y)), lambda a, b: abs(a - b)), ("max(abs(x),y)", mx(ab(x), y), lambda a, b: max(abs(a), b)),
+             ("3-min(x,y)", bop("Sub", num(3), mn(x, y)), lambda a, b: 3 - min(a, b)), ("-2*max(x,y)+y", bop("Add", bop("Mul", num(-2), mx(x, y)), y), lambda a, b: -2 * max(a, b) + b),
+             ("abs(abs(x)-2)", ab(bop("Sub", ab(x), num(2))), lambda a, b: abs(abs(a) - 2)), ("-(x/-4)", neg(bop("Div", x, num(-4))), lambda a, b: a / 4), ("min(x,-y)", mn(x, neg(y)), lambda a, b: min(a, -b))]
+    classes = [(-3.0, 2.0), (0.0, 5.0), (-5.0, 0.0), (-3.0, -1.0), (2.0, 4.0), (0.0, 0.0), (-INF, 5.0), (-3.0, INF), (-INF, INF), (-0.5, 0.25)]
+
+    def grid(lo, hi):
+        lo2, hi2 = max(lo, -6.0), min(hi, 7.0)
+        pts = {Fr(lo2), Fr(hi2), (Fr(lo2) + Fr(hi2)) / 2, Fr(lo2) + (Fr(hi2) - Fr(lo2)) / 3}
+        for z in (Fr(0), Fr(1, 2), Fr(-1, 2)):
+            if lo <= z <= hi:
+                pts.add(z)
+        return sorted(pts)
+    n_cells = 0
+    for label, e, f in forms:
+        uses_y = "y" in label
+        bad = None
+        for bx in classes:
+            for by in (classes if uses_y else [(0.0, 0.0)]):
+                r = I.call_fn(fn, [analyzer({"x": bx, "y": by}), e])
+                n_cells += 1
+                if is_unknown(r) or not isinstance(r, V) or "lower" not in r.fields:
+                    bad = "x in %s, y in %s: not evaluable: %r" % (bx, by, r)
+                    break
+                lo, hi = r.fields["lower"], r.fields["upper"]
+                if lo != lo or hi != hi or lo > hi:
+                    bad = "x in %s, y in %s: ill-formed interval [%r, %r]" % (bx, by, lo, hi)
+                    break
+                for a, b in it.product(grid(*bx), grid(*by)):
+                    v = f(a, b)
+                    if (lo != -INF and v < Fr(lo)) or (hi != INF and v > Fr(hi)):
+                        bad = "x in %s, y in %s: the value %s at x=%s, y=%s is outside [%r, %r]" % (bx, by, v, a, b, lo, hi)
+                        break
+                if bad:
+                    break
+            if bad:
+                break
+        R.ob("T-IVL-SEM", label, bad is None, "packages/rooc/src/transformers/bounds.rs", bad or "sound and well formed on every interval class")
+    R.count("T-IVL-SEM.cells", n_cells)
